@@ -20,7 +20,7 @@ func filterObs(obs []core.Ob, keep func(o core.Ob) bool) []core.Ob {
 
 func init() {
 	Props["C01"] = PropDef{
-		Explanation: "R-NOBUF: from Decode/NewDecoder/RawMessage/StringifiedMessage/dynbt.Value no buffering reader or read-to-EOF is reachable and NewDecoder installs the one-byte adapter (necessary for 'consumes exactly the document'). T-ENDIAN: every fixed-width reader/writer uses the big-endian (byte index, shift) table. T-DISPATCH: every full tag dispatch covers the 12 value tags, rejects unknown ids and a bare TagEnd. T-KIND: the encoder's kind->tag table is the documented one and every mapped kind is accepted by the decoder's case for that tag. R-RAWREAD for the byte adapter. Not decided: decoded values for arbitrary documents, struct-tag semantics (typeFields), exact skip lengths.",
+		Explanation: "R-NOBUF call-graph reachability; T-ENDIAN / T-DISPATCH (+ clause consistency) / T-KIND / T-NATURAL / T-TAGWIDTH table extraction from syntax and SSA; T-BITFIELD bit-range disjointness; R-RAWREAD one-byte adapter; R-NOALIAS append ownership; T-KIND emptiness coverage. Decided: No read-ahead primitive is reachable from the decode entry points and the byte adapter delivers a byte only when one was read; fixed-width codecs are big-endian and move the width of their tag (clauses and width tables); tag dispatches are complete, self-consistent and reject unknown ids and bare TagEnd; the kind->tag mapping is the documented table, accepted back, and omitempty decides every encodable kind; the field-index cache does not alias. Decoded values for arbitrary documents and struct-tag option parsing are not decided.",
 		Run: func(c *Ctx) []core.Ob {
 			obs := c.NoReadAhead()
 			obs = append(obs, c.Endian()...)
@@ -38,7 +38,7 @@ func init() {
 		},
 	}
 	Props["C02"] = PropDef{
-		Explanation: "R-REFLKIND: every kind-restricted reflect accessor in the encoder's writeValue is valid for every kind the tag table routes into that case (refined by switch val.Kind()). T-KIND: no asymmetric failure by kind between encoder and decoder (scalars and typed-array element kinds). R-NOMUT: encoding performs no reflect Set* on the caller's value. R-MARSHALER: custom marshalers write payload only; delegating unmarshalers re-inject the tag. R-NOALIAS: an append onto a slice held by another object (the index path of an embedding struct in the field cache) puts its result back there and is not kept under a second name. Not decided: equality of values after the round trip, root-name propagation, byte-exactness of carriers in every position.",
+		Explanation: "R-REFLKIND kind-set refinement; T-KIND / T-NATURAL tables; R-NOMUT; R-MARSHALER; R-NOALIAS (append ownership, fresh element per iteration); T-TAGWIDTH; R-TRUNC copy-into-fixed. Decided: Encoding cannot panic in a reflect accessor for any kind the table routes to it, writes nothing through its input, every kind it accepts has an accepting decoder case, custom marshalers keep the stream aligned, decoded map/list elements and cached index paths do not share memory, headers are not cut to a fixed buffer. Value equality after the round trip is not decided.",
 		Run: func(c *Ctx) []core.Ob {
 			obs := c.ReflKind()
 			obs = append(obs, c.KindTables()...)
@@ -53,7 +53,7 @@ func init() {
 		},
 	}
 	Props["C04"] = PropDef{
-		Explanation: "T-SNBTSUF: every numeric suffix and typed-array prefix the text writer emits is classified back to the same tag by the parser's literal classifier (isIntegerType/isFloatType evaluated per emitted character; suffix->tag switches compared as tables), and TagType() agrees with the parser on the array prefixes. T-DISPATCH for the binary->text dispatcher. R-PANIC: explicit panics reachable from the text entry points are triaged. R-TLG: binary->text loops are bounded by sign-checked counts. Not decided: the accepted language of the hand-written scanner, float formatting exactness, quoting decisions.",
+		Explanation: "T-SNBTSUF writer tables vs parser classifier; T-DISPATCH; T-SCANSTATE detour states; R-TRUNC rune-to-byte; R-GUARD string indexes; R-PANIC; R-TLG loop bounds. Decided: What the text writer emits for each tag is classified back to the same tag; array-prefix tables agree; escape states of the scanner return to the string state they left; quoting decisions look at bytes, not truncated runes; no unguarded index into a possibly empty string; no untriaged explicit panic reachable from text input. The scanner's accepted language, float formatting and escaping order are not decided.",
 		Run: func(c *Ctx) []core.Ob {
 			obs := c.SNBTSuffix()
 			obs = append(obs, c.SNBTLiteralWidths()...)
@@ -85,7 +85,7 @@ func init() {
 		},
 	}
 	Props["C10"] = PropDef{
-		Explanation: "R-ORIGIN: Conn.SetCipher installs the decrypt stream on the reader side and the encrypt stream on the writer side over the socket, and both call sites (bot, server/auth) pass (NewCFB8Encrypt, NewCFB8Decrypt) built over the same block and IV - necessary for an encrypted connection to be transparent. R-NOALIAS: the CFB8 constructors keep no memory of their slice parameters. Not decided: that XORKeyStream computes AES-CFB8 for every call pattern (byte values from ring-buffer index arithmetic with unsafe aliasing tests: no static argument in reach).",
+		Explanation: "R-ORIGIN value-origin of the cipher streams; R-NOALIAS constructor parameters; T-CONNINIT; R-GUARD block-slices on an inlined view. Decided: The connection decrypts what it reads and encrypts what it writes with streams built over the same block and IV, directly on the socket; the CFB8 constructors keep no caller memory; every slice by the block size in XORKeyStream is behind a length gate on that slice. Whether XORKeyStream equals AES-CFB8 is not decided.",
 		Run: func(c *Ctx) []core.Ob {
 			obs := c.CipherWiring()
 			obs = append(obs, c.NoRetainedParamSlices("net/CFB8")...)
@@ -95,7 +95,7 @@ func init() {
 		},
 	}
 	Props["C11"] = PropDef{
-		Explanation: "R-GUARD (via the R-TLG abstract interpreter): at every access of the packed longs in Get/Set/Swap the index is proven in [0, length-1] and at every store the value in [0, mask]; with 0 bits the methods return before calcIndex divides. R-ORDER: Fix returns nil only for 0 bits or after the raw-length comparison; NewBitStorage checks the length before copying. R-WIRESYM + R-TLG for ReadFrom/WriteTo. Not decided: the packing arithmetic itself (index -> long/offset, neighbours untouched).",
+		Explanation: "R-GUARD range facts proven by the R-TLG interpreter at every access of the packed data; R-ORDER for Fix / NewBitStorage / ReadFrom exact length; T-BSINV inverse of the size function; R-WIRESYM/R-TLG for the wire form. Decided: Rejected calls cannot have modified storage, zero-width storages return before dividing, wrong raw lengths are refused, ReadFrom gives the array exactly the announced length, the width recovered from a raw length packs as many values per long as the width it was sized for (one known finding). The index arithmetic itself is not decided.",
 		Run: func(c *Ctx) []core.Ob {
 			obs := c.BitStorageGuards()
 			obs = append(obs, c.BitStorageFixSibling()...)
